@@ -100,10 +100,10 @@ Qed.
 (* ---------- observation of two results that agree name by name ---------- *)
 Lemma observe_deq : forall mode r r',
   NoDup (keys r) -> NoDup (keys r') -> deq r r' ->
-  self_ok value sg r -> self_ok value sg r' -> no_fallback value sg mode r -> no_fallback value sg mode r' ->
+  self_ok value sg r -> self_ok value sg r' ->
   final_equiv (observe mode r) (observe mode r').
 Proof.
-  intros mode r r' ND ND' E S S' N N'. rewrite !observe_normal by assumption.
+  intros mode r r' ND ND' E S S'. rewrite !observe_normal by assumption.
   apply pyb_ext. now apply deq_norm.
 Qed.
 
@@ -114,15 +114,12 @@ Lemma final_equiv_of_results : forall dc dc' is_async c c',
   d_mode dc = d_mode dc' ->
   same_outcome dc dc' c c' -> same_outcome dc' dc c' c ->
   self_guard value sg dc c = true -> self_guard value sg dc' c' = true ->
-  gate_guard value sg dc c = true -> gate_guard value sg dc' c' = true ->
   final_equiv (snd (vrun dc is_async c)) (snd (vrun dc' is_async c')).
 Proof.
-  intros dc dc' is_async c c' Hm S S' G1 G1' G2 G2'. rewrite !run_ref. cbn [snd].
+  intros dc dc' is_async c c' Hm S S' G1 G1'. rewrite !run_ref. cbn [snd].
   destruct (snd (wc_ref dc c)) as [r|e pn] eqn:W; destruct (snd (wc_ref dc' c')) as [r'|e' pn'] eqn:W'.
   - destruct (S r W) as [r'' [X E]]. rewrite W' in X. injection X as <-. rewrite <- Hm.
     apply observe_deq; eauto using result_nodup, result_self_ok.
-    + eapply result_no_fallback; eassumption.
-    + rewrite Hm. eapply result_no_fallback; eassumption.
   - destruct (S r W) as [r'' [X _]]. congruence.
   - destruct (S' r' W') as [r'' [X _]]. congruence.
   - exact I.
@@ -183,10 +180,9 @@ Theorem call_style_invariant : forall dc is_async c c' xs xs',
   arrival dc c = Some xs -> arrival dc c' = Some xs' ->
   Permutation (map snd xs) (map snd xs') -> NoDup (keys (map snd xs)) ->
   self_guard value sg dc c = true -> self_guard value sg dc c' = true ->
-  gate_guard value sg dc c = true -> gate_guard value sg dc c' = true ->
   final_equiv (snd (vrun dc is_async c)) (snd (vrun dc is_async c')).
 Proof.
-  intros dc is_async c c' xs xs' A A' P ND G G' GG GG'.
+  intros dc is_async c c' xs xs' A A' P ND G G'.
   apply final_equiv_of_results; try assumption; try reflexivity.
   - eapply call_style_same_outcome; eassumption.
   - eapply call_style_same_outcome; try eassumption.
@@ -262,10 +258,9 @@ Qed.
 Theorem declaration_order_invariant : forall dc dc' is_async c,
   same_but_params dc dc' -> NoDup (map (@p_name value) (d_params dc)) ->
   self_guard value sg dc c = true -> self_guard value sg dc' c = true ->
-  gate_guard value sg dc c = true -> gate_guard value sg dc' c = true ->
   final_equiv (snd (vrun dc is_async c)) (snd (vrun dc' is_async c)).
 Proof.
-  intros dc dc' is_async c S ND G G' GG GG'.
+  intros dc dc' is_async c S ND G G'.
   apply final_equiv_of_results; try assumption.
   - apply S.
   - now apply declaration_order_same_outcome.
@@ -287,35 +282,26 @@ Lemma names_fit_unknown : forall dc c r, names_fit value sg dc c = true -> snd (
   negb (s_varkw sg) && unknown_key value sg r = false.
 Proof.
   intros dc c r N W.
-  assert (G : gate_guard value sg (with_mode dc ARGS) c = true).
-  { unfold gate_guard. cbn [with_mode d_mode is_args negb orb]. unfold names_fit in *. cbn [with_mode d_params]. now rewrite N. }
-  rewrite <- (wc_ref_mode dc ARGS) in W.
-  destruct (dget self_name r) eqn:S.
-  - (* self is bound: the first parameter is self, hence in the signature; repeat the argument without it *)
-    unfold names_fit in N. destruct (s_varkw sg); [reflexivity|]. cbn [orb negb andb] in *.
-    apply andb_true_iff in N. destruct N as [N1 N2].
-    destruct (unknown_key value sg r) eqn:U; [|reflexivity]. exfalso.
-    unfold unknown_key in U. apply existsb_exists in U. destruct U as [[k w] [I U]]. cbn [fst] in U.
-    apply negb_true_iff in U.
-    assert (K : In k (keys r)) by (unfold keys; change k with (fst (k, w)); now apply in_map).
-    rewrite wc_ref_mode in W.
-    destruct (result_keys _ _ _ _ _ _ _ _ W K) as [[_ [K'|K']]|K'].
-    + rewrite (all_in_sig_In _ _ _ _ N2 K') in U. discriminate.
-    + rewrite (pos_name_sig_has _ _ _ K') in U. discriminate.
-    + unfold declared in K'. apply existsb_exists in K'. destruct K' as [p [Ip E]]. apply Nat.eqb_eq in E. subst k.
-      rewrite (all_in_sig_In _ _ _ _ N1 (in_map _ _ _ Ip)) in U. discriminate.
-  - exact (result_no_fallback _ _ _ _ _ _ _ G W eq_refl S).
+  unfold names_fit in N. destruct (s_varkw sg); [reflexivity|]. cbn [orb negb andb] in *.
+  apply andb_true_iff in N. destruct N as [N1 N2].
+  destruct (unknown_key value sg r) eqn:U; [|reflexivity]. exfalso.
+  unfold unknown_key in U. apply existsb_exists in U. destruct U as [[k w] [I U]]. cbn [fst] in U.
+  apply negb_true_iff in U.
+  assert (K : In k (keys r)) by (unfold keys; change k with (fst (k, w)); now apply in_map).
+  destruct (result_keys _ _ _ _ _ _ _ _ W K) as [[_ [K'|K']]|K'].
+  - rewrite (all_in_sig_In _ _ _ _ N2 K') in U. discriminate.
+  - rewrite (pos_name_sig_has _ _ _ K') in U. discriminate.
+  - unfold declared in K'. apply existsb_exists in K'. destruct K' as [p [Ip E]]. apply Nat.eqb_eq in E. subst k.
+    rewrite (all_in_sig_In _ _ _ _ N1 (in_map _ _ _ Ip)) in U. discriminate.
 Qed.
 
 Theorem args_equals_kwargs : forall dc is_async c,
-  self_guard value sg dc c = true -> names_fit value sg dc c = true ->
+  self_guard value sg dc c = true ->
   snd (vrun (with_mode dc ARGS) is_async c) = snd (vrun (with_mode dc KWARGS_WITH_NONE) is_async c).
 Proof.
-  intros dc is_async c G N. rewrite !run_ref, !wc_ref_mode. cbn [snd with_mode d_mode].
+  intros dc is_async c G. rewrite !run_ref, !wc_ref_mode. cbn [snd with_mode d_mode].
   destruct (snd (wc_ref dc c)) as [r|e pn] eqn:W; [|reflexivity].
   assert (ND := result_nodup _ _ _ _ _ _ _ W). assert (SO := result_self_ok _ _ _ _ _ _ _ G W).
-  assert (NF1 : no_fallback value sg ARGS r) by (intros _ _; eapply names_fit_unknown; eassumption).
-  assert (NF2 : no_fallback value sg KWARGS_WITH_NONE r) by (intro X; discriminate X).
   rewrite !observe_normal by assumption. reflexivity.
 Qed.
 
@@ -372,8 +358,6 @@ Proof.
   intros dc is_async c G N. rewrite !run_ref, !wc_ref_mode. cbn [snd with_mode d_mode].
   destruct (snd (wc_ref dc c)) as [r|e pn] eqn:W; [|reflexivity].
   assert (ND := result_nodup _ _ _ _ _ _ _ W). assert (SO := result_self_ok _ _ _ _ _ _ _ G W).
-  assert (NF1 : no_fallback value sg KWARGS_WITHOUT_NONE r) by (intro X; discriminate X).
-  assert (NF2 : no_fallback value sg KWARGS_WITH_NONE r) by (intro X; discriminate X).
   rewrite !observe_normal by assumption.
   cbn [ValidateBind.norm]. set (r' := filter (notnone value is_none) r).
   assert (U := names_fit_unknown _ _ _ N W).
@@ -527,14 +511,14 @@ Qed.
 
 (* ---------- what the body sees for one name ---------- *)
 Theorem body_binding : forall dc is_async c j b,
-  self_guard value sg dc c = true -> gate_guard value sg dc c = true ->
+  self_guard value sg dc c = true ->
   vrun dc is_async c = (j, FBody b) ->
   exists r, snd (wc_ref dc c) = WOk r /\ NoDup (keys r) /\
             forall n, dget n b = bound_val value sg (norm (d_mode dc) r) n.
 Proof.
-  intros dc is_async c j b G GG H. destruct (run_body_inv _ _ _ _ _ _ _ _ _ H) as [r [W O]].
+  intros dc is_async c j b G H. destruct (run_body_inv _ _ _ _ _ _ _ _ _ H) as [r [W O]].
   exists r. assert (ND := result_nodup _ _ _ _ _ _ _ W). repeat split; try assumption.
-  rewrite observe_normal in O by eauto using result_self_ok, result_no_fallback.
+  rewrite observe_normal in O by eauto using result_self_ok.
   destruct (pyb value sg (norm (d_mode dc) r)) as [b'|x] eqn:P; [|discriminate].
   cbn in O. injection O as ->. now apply pyb_dget.
 Qed.
@@ -551,15 +535,15 @@ Qed.
 
 (* a declared Parameter the caller does not supply: the value stored by the unused-parameter loop reaches the body *)
 Theorem missing_reaches_body : forall dc is_async c j b p v,
-  self_guard value sg dc c = true -> gate_guard value sg dc c = true ->
+  self_guard value sg dc c = true ->
   NoDup (map (@p_name value) (d_params dc)) ->
   vrun dc is_async c = (j, FBody b) ->
   In p (d_params dc) -> (forall w, ~ caller_gives value sg dc c (p_name p) w) ->
   snd (u_m p) = WOk v -> (d_mode dc <> KWARGS_WITHOUT_NONE \/ is_none v = false) ->
   dget (p_name p) b = Some v.
 Proof.
-  intros dc is_async c j b p v G GG ND H I Abs Hv K.
-  destruct (body_binding _ _ _ _ _ G GG H) as (r & W & NDr & B). rewrite B.
+  intros dc is_async c j b p v G ND H I Abs Hv K.
+  destruct (body_binding _ _ _ _ _ G H) as (r & W & NDr & B). rewrite B.
   apply bound_val_some, dget_norm_keep; try assumption.
   eapply missing_result; eassumption.
 Qed.
@@ -567,15 +551,15 @@ Qed.
 
 (* KWARGS_WITHOUT_NONE drops a None that came from the signature default; Python puts it back *)
 Theorem missing_sig_default_reaches_body : forall dc is_async c j b p d,
-  self_guard value sg dc c = true -> gate_guard value sg dc c = true ->
+  self_guard value sg dc c = true ->
   NoDup (map (@p_name value) (d_params dc)) ->
   vrun dc is_async c = (j, FBody b) ->
   In p (d_params dc) -> (forall w, ~ caller_gives value sg dc c (p_name p) w) ->
   snd (u_m p) = WOk d -> sig_default value sg (p_name p) = Some d ->
   dget (p_name p) b = Some d.
 Proof.
-  intros dc is_async c j b p d G GG ND H I Abs Hv Sd.
-  destruct (body_binding _ _ _ _ _ G GG H) as (r & W & NDr & B). rewrite B.
+  intros dc is_async c j b p d G ND H I Abs Hv Sd.
+  destruct (body_binding _ _ _ _ _ G H) as (r & W & NDr & B). rewrite B.
   assert (R := missing_result _ _ _ _ _ _ _ _ _ ND W I Abs Hv).
   destruct (d_mode dc) eqn:Md; try (now apply bound_val_some).
   cbn [ValidateBind.norm]. destruct (is_none d) eqn:Nn.
@@ -586,7 +570,7 @@ Qed.
 
 (* the default cascade of a Parameter that receives no value, as the body observes it *)
 Theorem default_cascade : forall dc is_async c j b p,
-  self_guard value sg dc c = true -> gate_guard value sg dc c = true ->
+  self_guard value sg dc c = true ->
   NoDup (map (@p_name value) (d_params dc)) ->
   vrun dc is_async c = (j, FBody b) ->
   In p (d_params dc) -> (forall w, ~ caller_gives value sg dc c (p_name p) w) -> no_external value p ->
@@ -596,7 +580,7 @@ Theorem default_cascade : forall dc is_async c j b p,
   | None => exists d, sig_default value sg (p_name p) = Some d /\ dget (p_name p) b = Some d
   end.
 Proof.
-  intros dc is_async c j b p G GG ND H I Abs NE.
+  intros dc is_async c j b p G ND H I Abs NE.
   assert (C := missing_cascade value is_none sg p NE).
   destruct (spec_required value p) eqn:Rq.
   - exfalso. destruct (missing_value_no_body value is_none sg env dc is_async c p I Abs NE (or_introl Rq)) as [x [pn X]].
@@ -611,7 +595,7 @@ Qed.
 
 (* an external source supplies the value exactly when the caller did not *)
 Theorem external_supplies_when_absent : forall dc is_async c j b p w v,
-  self_guard value sg dc c = true -> gate_guard value sg dc c = true ->
+  self_guard value sg dc c = true ->
   NoDup (map (@p_name value) (d_params dc)) ->
   vrun dc is_async c = (j, FBody b) ->
   In p (d_params dc) -> (forall w', ~ caller_gives value sg dc c (p_name p) w') ->
@@ -619,7 +603,7 @@ Theorem external_supplies_when_absent : forall dc is_async c j b p w v,
   (d_mode dc <> KWARGS_WITHOUT_NONE \/ is_none v = false) ->
   dget (p_name p) b = Some v.
 Proof.
-  intros dc is_async c j b p w v G GG ND H I Abs [x [E [Has Ld]]] Sp K.
+  intros dc is_async c j b p w v G ND H I Abs [x [E [Has Ld]]] Sp K.
   eapply missing_reaches_body; try eassumption.
   unfold ValidateRef.u_m. rewrite E, Has, Ld, pv_spec, Sp. reflexivity.
 Qed.
@@ -643,10 +627,9 @@ Theorem call_style_invariant' : forall dc is_async c c',
   List.length (c_args c') <= List.length (pos_params value sg) ->
   Permutation (named_assignment c) (named_assignment c') -> NoDup (keys (named_assignment c)) ->
   self_guard value sg dc c = true -> self_guard value sg dc c' = true ->
-  gate_guard value sg dc c = true -> gate_guard value sg dc c' = true ->
   final_equiv (snd (vrun dc is_async c)) (snd (vrun dc is_async c')).
 Proof.
-  intros dc is_async c c' Ig L L' P ND G G' GG GG'.
+  intros dc is_async c c' Ig L L' P ND G G'.
   destruct (arrival_some dc c Ig L) as [xs [A E]]. destruct (arrival_some dc c' Ig L') as [xs' [A' E']].
   eapply call_style_invariant; try eassumption; now rewrite E, ?E'.
 Qed.
